@@ -8,16 +8,19 @@ CFG = {
     "shard": 250,
     "max_report": 3,
     "level": "proof",
-    "rule": ("promise-operation programs of <= 12 ops after 1..4 leading NewPromise, <= 8 named promises, 0..3 thenable objects "
+    "rule": ("promise-operation programs of <= 12 ops after 1..4 leading NewPromise, <= 10 named promises, 0..3 thenable objects "
              "(callable then scripts calling resolve/reject 0..3 times and/or throwing; throwing then-getter; non-callable then), "
              "ops = new / resolve / reject through a pair (any number of times; value = int, promise, thenable, the promise itself) / "
              "then with optional handlers (handler = log, 0..2 resolver calls, then return int | return arg | throw | return promise | "
-             "return thenable | interrupt) / all, allSettled, race, any over promises, ints and thenables; split into 1..3 runs, "
+             "return thenable | interrupt; .catch sugar) / finally(script) / async functions (0..3 awaits of int, promise, thenable, "
+             "then return int | promise | thenable or throw, optional try/catch) / all, allSettled, race, any over promises, ints "
+             "and thenables; 20% of cases are 'tick races' (then-chains of length 2..4 shuffled with async functions awaiting or "
+             "returning an already settled promise, a logging then on every async result, finally); split into 1..3 runs, "
              "with Go-side NewPromise()/resolver calls as runs of their own; non-trivial = at least two log entries and one of "
              "(resolution with promise/thenable, handler returning promise/thenable, combinator, several runs, repeated resolver "
-             "call); distinct = by hash of the case"),
+             "call, async function, finally); distinct = by hash of the case"),
     "theorem_names": ["promise_refines", "each_reaction_once", "queue_empty_on_return", "interrupt_discards",
-                      "settle_once", "latched_pair_is_noop", "tracker_language"],
+                      "settle_once", "latched_pair_is_noop", "tracker_language", "reaction_record_jobbed_once"],
     "allowed_axioms": [],
     "trusted_base": [
         "Coq 8.16.1 kernel + vm_compute (no native_compute); theorems closed under the global context (no axioms)",
@@ -29,28 +32,31 @@ CFG = {
     "assumptions": [
         "the drain loops take fuel (one unit per executed job); a run that exhausts it is marked `exhausted` and its remaining "
         "jobs are accounted as dropped, so every theorem holds unconditionally; the correspondence check requires exhausted = false",
-        "handlers cannot create promises or reactions themselves (they log, call resolving functions, return/throw/interrupt)",
-        "each_reaction_once is proved at the level of jobs (unique ids, executed at most once, executed + discarded = enqueued); "
-        "that a stored reaction record becomes a job at most once is structural (fulfill/reject clear both reaction lists when "
-        "they trigger them, and settle_once shows they run once per promise) and is not a separate theorem",
-        "species/subclass constructors, finally, async functions (await) are not modelled",
+        "user handlers cannot create promises or reactions themselves (they log, call resolving functions, return/throw/interrupt); finally and async continuations do, internally",
+        "async function bodies are straight-line (awaits, then return/throw, optionally wrapped in one try/catch); the suspended "
+        "body is data carried by the reaction (asyncRunner + generator context are not modelled as VM state, see C09)",
+        "termination of the drain for stratified programs is not proved; each generated case is shown to finish within fuel by evaluation",
+        "species/subclass constructors, async generators, for-await are not modelled",
         "the implementation is tied to the model only on the generated programs (correspondence), not by proof",
     ],
     "predicates": {},
     "manifest": {
         "text": ("proof: a Gallina transcription of goja's promise machinery (Promise records with reaction lists and the handled flag, "
-                 "resolving-function pairs with the alreadyResolved latch, thenable jobs, reaction jobs, all/allSettled/race/any, the "
+                 "resolving-function pairs with the alreadyResolved latch, thenable jobs, reaction jobs, all/allSettled/race/any, finally, "
+                 "async functions (asyncRunner.start/step/onFulfilled/onRejected = AsyncFunctionStart/Await: await = PromiseResolve + "
+                 "PerformPromiseThen without capability, return through the capability's resolve function), the "
                  "double-buffered drain loop of Runtime.leave and leaveAbrupt) is proved, for every program, every split into runs and "
                  "every fuel, to produce exactly the state (event log, tracker log, promise states) of ECMA-262 27.2 over a plain FIFO "
                  "queue; every enqueued job gets a unique id and is executed at most once, executed + discarded = enqueued, the queue is "
                  "empty at every return, jobs discarded by an interrupt never run, a promise is settled at most once (latch invariant), "
+                 "a stored reaction record becomes a job at most once, "
                  "and per promise the tracker log is a prefix of [reject; handle] determined by the handled flag. The model is tied to "
                  "/repo on every run by compiling generated programs to JS, running them on goja with Go-side log, tracker, interrupt "
                  "and NewPromise resolvers, and comparing log, tracker log, State()/Result() and len(jobQueue) after every run with the "
                  "model evaluated by vm_compute."),
         "note": ("trusted: Coq kernel + vm_compute; the hand transcription coq/C10/Model.v (one transcription of the promise-record "
                  "algorithms shared by I and S, which differ in the queue discipline); the Go harness and VerifIdle; the implementation "
-                 "itself is covered by correspondence on generated programs, not by proof; finally/async/species not modelled"),
+                 "itself is covered by correspondence on generated programs, not by proof; species/async generators not modelled"),
         "technique": "Rocq refinement + invariant proofs over an executable promise/job-queue model; differential correspondence against /repo via vm_compute",
     },
 }
